@@ -5,7 +5,7 @@ export GOFLAGS=-mod=mod GOPROXY=off GOSUMDB=off GOTOOLCHAIN=local
 S="$1"
 mkdir -p "$S"
 rm -rf "$S/repo" "$S/drv"
-/verif/bin/rewrite -src /repo -dst "$S/repo" -overlay /verif/sim/overlay ${VERIF_NOKNOB:+-noknob}
+/verif/bin/rewrite -src "${VERIF_REPO:-/repo}" -dst "$S/repo" -overlay /verif/sim/overlay ${VERIF_NOKNOB:+-noknob}
 cp -r /verif/sim/drv "$S/drv"
 cd "$S/drv"
 if [ "$2" = race ]; then
